@@ -412,6 +412,46 @@ func AnalyseMethod(fset *token.FileSet, fd *ast.FuncDecl) *Method {
 			}
 		}
 	}
+	// A-AON: the value that is decoded into must be fresh. A local that is initialised from the receiver (`plain := Plain(*j)`) shares
+	// the storage of maps, slices and pointers with the destination, so a decode that fails half-way has already modified it
+	if recvName != "" {
+		ast.Inspect(fd.Body, func(n ast.Node) bool {
+			check := func(names []string, rhs []ast.Expr, at ast.Node) {
+				for i, nm := range names {
+					if nm == recvName || nm == "_" || i >= len(rhs) {
+						continue
+					}
+					mentions := false
+					ast.Inspect(rhs[i], func(x ast.Node) bool {
+						if id, ok := x.(*ast.Ident); ok && id.Name == recvName {
+							mentions = true
+						}
+						return true
+					})
+					if mentions {
+						m.Problems = append(m.Problems, "A-AON: the local "+nm+" is initialised from the receiver at line "+strconv.Itoa(line(at))+" ("+exprStr(fset, rhs[i])+"): it shares maps, slices and pointers with the destination, which a failing decode then leaves modified")
+					}
+				}
+			}
+			switch x := n.(type) {
+			case *ast.AssignStmt:
+				if x.Tok == token.DEFINE {
+					var names []string
+					for _, l := range x.Lhs {
+						names = append(names, exprStr(fset, l))
+					}
+					check(names, x.Rhs, x)
+				}
+			case *ast.ValueSpec:
+				var names []string
+				for _, l := range x.Names {
+					names = append(names, l.Name)
+				}
+				check(names, x.Values, x)
+			}
+			return true
+		})
+	}
 	// A-SHADOW: the keys that are NOT additional are enumerated by reflection over a struct type; that type must be the shadow type
 	// of the value that was decoded (`plain`), not whatever package-level type happens to carry the name
 	plainType := ""
